@@ -151,6 +151,20 @@ def classify(result, cex):
     return None
 
 
+def _double_reading_possible(enzyme):
+    """some word matches the forward and the reverse recognition pattern at once"""
+    import itertools
+    import re
+    from Bio import Restriction
+
+    e = getattr(Restriction, enzyme)
+    pats = re.findall(r"\(\?=\(\?P<\w+>(.*?)\)\)", e.compsite.pattern)
+    if len(pats) != 2:
+        return False
+    return any(re.fullmatch(pats[0], "".join(w)) and re.fullmatch(pats[1], "".join(w))
+               for w in itertools.product("ACGT", repeat=e.size))
+
+
 def shape_key(pattern):
     """pattern with the letters inside groups 1 and 3 blanked (signature letters)"""
     out, gi, cur = [], 0, 0
@@ -220,7 +234,7 @@ def obligations(tier, seed):
             obs.append(Ob("%s n=%d (F=%d)" % (label, n, F), ob_class, p, samples=3, cost=n ** 3,
                           expect_witness=("accepted", "rejected"), group=label))
         if params["src"] == "generic" and params["enzyme"] in AMBIGUOUS_ENZYMES and params["role"] == "module" \
-                and KNOWN_BOTH in known_keys():
+                and KNOWN_BOTH in known_keys() and _double_reading_possible(params["enzyme"]):
             obs.append(Ob("%s n=%d restricted to the known-finding shape" % (label, F), ob_class,
                           dict(params, n=F, only_known_shape=True), samples=0, cost=F ** 3, group="known " + label))
     return obs
